@@ -45,6 +45,17 @@ def len7 (v : Nat) : Nat := len7Aux v v
 def takeExact (k : Nat) (bs : List Nat) : Option (List Nat) :=
   if k ≤ bs.length then some (bs.take k) else none
 
+/-- what the compiled driver runs instead (does not walk the whole list); proved equal below -/
+def takeExactFast (k : Nat) (bs : List Nat) : Option (List Nat) :=
+  if (bs.take k).length = k then some (bs.take k) else none
+
+@[csimp] theorem takeExact_eq_fast : @takeExact = @takeExactFast := by
+  funext k bs
+  simp only [takeExact, takeExactFast, List.length_take]
+  by_cases h : k ≤ bs.length
+  · rw [if_pos h, if_pos (by omega)]
+  · rw [if_neg h, if_neg (by omega)]
+
 def U64 : Nat := 2 ^ 64
 def U32 : Nat := 2 ^ 32
 
